@@ -116,10 +116,26 @@ def handleBuild (stages : Bool) (bits minRep minLen : Nat) (ws : List Str) (dict
         ++ "\t" ++ dumpExpr st.finalAst ++ "\t" ++ hexStr out
     else "O " ++ hexStr out
 
+/-- self-check trace: sorted test cases, then (pattern, verdict of the spec matcher) pairs -/
+def handleTrace (bits minRep minLen : Nat) (ws : List Str) (dict : List DictEntry) : String :=
+  if !dictOk dict then "E contract" else
+  if ws.isEmpty then "P no-test-cases" else
+  let cfg := cfgOfBits bits minRep minLen
+  match regExpFrom cfg (mkEnv dict) ws with
+  | .error e => "P " ++ panicName e
+  | .ok st =>
+    "T " ++ ";".intercalate (st.sorted.map hexStr) ++ " " ++
+      (if st.trace.isEmpty then "!" else
+        ";".intercalate (st.trace.map fun (p, v) => hexStr p ++ ":" ++ (if v then "1" else "0")))
+
 def handleLine (line : String) : String :=
   match line.trimAscii.toString.splitOn " " with
   | [kind, bits, mr, ml, tcs, dict] =>
-    if kind = "B" || kind = "S" then
+    if kind = "T" then
+      match bits.toNat?, mr.toNat?, ml.toNat?, parseList tcs, parseDict dict with
+      | some b, some r, some l, some ws, some d => handleTrace b r l ws d
+      | _, _, _, _, _ => "E parse"
+    else if kind = "B" || kind = "S" then
       match bits.toNat?, mr.toNat?, ml.toNat?, parseList tcs, parseDict dict with
       | some b, some r, some l, some ws, some d => handleBuild (kind = "S") b r l ws d
       | _, _, _, _, _ => "E parse"
